@@ -1995,8 +1995,8 @@ class Surface(SplineGeometry):
         # Keyword arguments
         force_tessellate = kwargs.pop('force', False)  # force re-tessellation
 
-        # No need to re-tessellate if we have already tessellated the surface
-        if self._tsl_component.is_tessellated() and not force_tessellate:
+        # No need to re-tessellate if we have already tessellated the surface (unless arguments are given)
+        if self._tsl_component.is_tessellated() and not force_tessellate and not kwargs:
             return
 
         # Remove duplicate elements from the kwargs dictionary
